@@ -47,3 +47,7 @@ mod splice;
 mod stats2;
 #[cfg(kani)]
 mod bvec;
+#[cfg(kani)]
+mod mutvec2;
+#[cfg(kani)]
+mod failfmt;
